@@ -366,7 +366,7 @@ def main():
     for t in thms[:4]:
         samples.append({"obligation": t["theorem"], "axioms": t["axioms"]})
     for r in results:
-        for s in r.get("samples", [])[:3]:
+        for s in (r.get("samples") or [])[:3]:  # an engine that evaluated nothing (replay of another engine's lines) writes null
             samples.append({"engine": r["engine"], "case": s})
     if not samples:
         samples = [{"note": "nothing ran", "log": log[-1][:300] if log else ""}]
